@@ -316,3 +316,37 @@ def preserve_bounded(ctx):
             for a_ in b.axes:
                 ctx.prove("simple-grading-only-for-equal-edges",
                           all(abs(w.grading.specification[0][2] - a_.wires[0].grading.specification[0][2]) <= 1e-6 * abs(w.grading.specification[0][2]) for w in a_.wires))
+
+
+@proof("C04", "scenario/size-based-chops/written-moved-written", cases=[(c, p) for c in __import__("contracts.spec.regrade", fromlist=["CASES"]).CASES for p in ("start_size", "end_size")],
+       level="S", samples=1,
+       functions=["classy_blocks.items.edges.line:LineEdge.length", "classy_blocks.items.wires.wire:Wire.length", "classy_blocks.grading.chop:Chop.calculate",
+                  "classy_blocks.items.wires.manager:WireChopManager.grade"],
+       note="executed contract (no symbolic content): a preserved cell size on edges of unequal length, write, move vertices so that "
+            "every edge gets another length, write again - the second file realises the preserved size on the edges as they are now "
+            "(round 5: an edge length remembered from the first grading)")
+def written_moved_written(ctx):
+    from contracts.spec import regrade
+
+    case, preserve = ctx.case
+    r = regrade.write_move_write(case, preserve=preserve)
+    text, exc = r["second"]
+    ctx.prove("second-write-succeeds", exc is None, exc=repr(exc)[:200])
+    if exc is not None:
+        return
+    ok = True
+    worst = 0.0
+    for b in r["mesh"].blocks:
+        for w in b.axes[0].wires:
+            L = float(np.linalg.norm(np.asarray(w.vertices[1].position, dtype=float) - np.asarray(w.vertices[0].position, dtype=float)))
+            spec = w.grading.specification
+            # one division: [length_ratio, count, total_expansion]
+            n, g = int(spec[0][1]), float(spec[0][2])
+            r_c2c = g ** (1.0 / (n - 1)) if n > 1 else 1.0
+            first = L / n if abs(r_c2c - 1) < 1e-12 else L * (r_c2c - 1) / (r_c2c ** n - 1)
+            size = first if preserve == "start_size" else first * g
+            worst = max(worst, abs(size - 0.02) if preserve == "start_size" else 0.0)
+            if preserve == "start_size" and abs(size - 0.02) > 1e-6:
+                ok = False
+    ctx.prove("second-write/preserved-start-size-realised-on-every-x-edge-as-it-is-now", ok, worst=worst)
+    ctx.prove("second-write/same-file-as-a-fresh-model-of-the-moved-geometry", "".join(text.split()) == "".join(r["fresh_written"][0].split()))
